@@ -63,6 +63,9 @@ func VDefs() []Def {
 	}
 	d = append(d, Def{VApp, VGroup2, 0, "V-Grouped2", "grouped", "M"})
 	d = append(d, Def{VApp, VVGroup2, VVendor, "VV-Grouped2", "grouped", "M,V"})
+	// definitions whose flag rule text and vendor id disagree
+	d = append(d, Def{VApp, 9201, VVendor, "VW-Unsigned32", "u32", "M"})
+	d = append(d, Def{VApp, 9202, 0, "VX-OctetString", "octets", "M,V"})
 	return d
 }
 
